@@ -7,6 +7,7 @@ use to import the freshly synchronised pysph.
 import fcntl
 import hashlib
 import os
+import re
 import shutil
 import subprocess
 import sys
@@ -69,7 +70,19 @@ def _prune_scratch(d, age=12 * 3600):
     try:
         for n in os.listdir(d):
             p = os.path.join(d, n)
-            if os.path.isdir(p) and now - os.path.getmtime(p) > age:
+            if not os.path.isdir(p):
+                continue
+            dead = False
+            m = re.match(r'^C\d\d-(\d+)$', n)
+            if m:
+                # scratch of a check process that no longer exists
+                try:
+                    os.kill(int(m.group(1)), 0)
+                except ProcessLookupError:
+                    dead = True
+                except OSError:
+                    pass
+            if dead or now - os.path.getmtime(p) > age:
                 shutil.rmtree(p, ignore_errors=True)
     except OSError:
         pass
